@@ -989,6 +989,123 @@ class RlRaggedMean(Family):
     bounded_cases = RlRaggedRavel.bounded_cases
 
 
+@register
+class RlRaggedColCounts(Family):
+    """RunLengthRaggedArray.col_counts(): the run-length array whose value at column k is the number of rows longer than k, for every k below the longest
+    row.  The function takes np.unique(row lengths, return_counts=True), subtracts the running totals of the counts from the number of rows and uses the
+    distinct lengths as run boundaries.  With gt(k, i) = #{rows r < i : len(r) > k} (the spec, a recurrence over the rows), H(i, r) = the number of the
+    first r rows whose length is one of the i smallest distinct lengths (ghost): (A) H(i, r+1) = H(i, r) + [slot of row r < i] by induction on i,
+    (B) H(i, r) + gt(k, r) = r for a column k of run i by induction on r, (C) cumsum(counts)[i-1] = H(i, n) by induction on i."""
+    name = "RunLengthRaggedArray.col_counts"
+    qualname = "npstructures.runlengtharray:RunLengthRaggedArray.col_counts"
+    serves = ["C17"]
+    timeout_ms = 30000
+    assumed = ["numpy.unique(return_counts=True): distinct values increasing, every element has its slot, counts[k] = CNT(uniq[k], n) with the counting "
+               "recurrence over the positions (audited)", "numpy.cumsum = prefix sums, numpy.insert(a, 0, 0)",
+               "RaggedArray operations through their contracts (SpecRagged: x[..., -1]; audited)"]
+
+    def extra_functions(self):
+        return ["RunLengthArray.__init__", "RunLengthRaggedArray.shape", "RunLength2dArray.__len__"]
+
+    def _facts(self, ctx, st):
+        n, VL, B = st["n"], st["VL"], st["B"]
+        u = ctx.ghost["uniques"][-1]
+        K, uniq, grp, CNT = u["K"], u["uniq"], u["grp"], u["CNT"]
+        RL = lambda r_: B(r_, VL(r_))
+        return n, K, uniq, grp, CNT, RL, u
+
+    def late_lemmas(self, ctx, kind, exc):
+        """the RunLengthArray constructor's assertions cannot fail: boundaries 0 < distinct lengths increasing, one value per run"""
+        st = ctx.ghost.get("st")
+        if st is None or not isinstance(exc, AssertionError) or not ctx.ghost.get("uniques"):
+            return
+        n, K, uniq, grp, CNT, RL, u = self._facts(ctx, st)
+        VL, B = st["VL"], st["B"]
+        f0 = u["first"](z3.IntVal(0))
+        ctx.assume_forall("B increasing (pairwise; lemma adjacent-sorted=>sorted)", lambda r_, a_, b_: z3.Implies(
+            z3.And(0 <= r_, r_ < n, 0 <= a_, a_ < b_, b_ <= VL(r_)), B(r_, a_) < B(r_, b_)), arity=3)
+        ctx.prove_then_assume("late.lemma: every row has at least one position, so the smallest distinct length is positive", uniq(0) >= 1,
+                              kind="lemma", pool=[z3.IntVal(0), f0, VL(f0), K], without=["B.incr", "S.mono"])
+        pool = [z3.IntVal(0), z3.IntVal(1), K, K - 1]
+        for f in ctx.ghost.get("forall_facts", [])[-1:]:
+            pool += [f["w"], f["w"] + 1, f["w"] - 1]
+        ctx.prove_then_assume("late.lemma: the constructor's assertions cannot fail", z3.BoolVal(False), kind="lemma", pool=pool)
+
+    def run(self, ctx, kind):
+        from ..sym.theory import prefix_sum
+        from npstructures.runlengtharray import RunLengthArray
+        st = sym_rl_ragged(ctx, kind="int", min_rows=1)
+        ctx.ghost["st"] = st
+        n, VL, B = st["n"], st["VL"], st["B"]
+        out = st["obj"].col_counts()
+        n, K, uniq, grp, CNT, RL, u = self._facts(ctx, st)
+        ok = isinstance(out, RunLengthArray)
+        ctx.prove("post.a run-length array", z3.BoolVal(ok))
+        if not ok:
+            return
+        E, V = out._events, out._values
+        ps = ctx.ghost["prefix_sums"][-1]["ps"]                  # prefix sums of the counts
+        ind = lambda c_: z3.If(c_, z3.IntVal(1), z3.IntVal(0))
+        gt = z3.Function(fresh_name("gt"), z3.IntSort(), z3.IntSort(), z3.IntSort())
+        H = z3.Function(fresh_name("H"), z3.IntSort(), z3.IntSort(), z3.IntSort())
+        ctx.assume_forall("gt.base (spec)", lambda k_: gt(k_, 0) == 0)
+        ctx.assume_forall("gt.step (spec: rows longer than k)", lambda k_, i_: z3.Implies(z3.And(0 <= i_, i_ < n), gt(k_, i_ + 1) == gt(k_, i_) + ind(RL(i_) > k_)), arity=2)
+        ctx.assume_forall("H.base (ghost)", lambda r_: H(0, r_) == 0)
+        ctx.assume_forall("H.step (ghost)", lambda i_, r_: z3.Implies(z3.And(0 <= i_, i_ < K), H(i_ + 1, r_) == H(i_, r_) + CNT(uniq(i_), r_)), arity=2)
+        ctx.prove("post.one run per distinct row length", z3.And(dim_term(E.shape_[0]) == K + 1, dim_term(V.shape_[0]) == K))
+        i, r = z3.Int("i"), z3.Int("r")
+        ctx.skolem(z3.And(0 <= i, i < K, 0 <= r, r < n))
+        gr = grp(r)
+        ctx.prove_then_assume("lemma: row r has the i-th distinct length exactly if i is its slot", (RL(r) == uniq(i)) == (gr == i), pool=[r, i, gr])
+        ctx.prove("lemmaA.base: H(0, r+1) == H(0, r) + [slot(r) < 0]", H(0, r + 1) == H(0, r) + ind(gr < 0), pool=[r, r + 1, z3.IntVal(0)], live=[i])
+        ctx.prove("lemmaA.step: from i to i+1", z3.Implies(H(i, r + 1) == H(i, r) + ind(gr < i), H(i + 1, r + 1) == H(i + 1, r) + ind(gr < i + 1)),
+                  pool=[r, r + 1, i, i + 1, uniq(i)])
+        ctx.assume_forall("lemmaA (by induction on i)", lambda i_, r_: z3.Implies(z3.And(0 <= i_, i_ <= K, 0 <= r_, r_ < n),
+                          H(i_, r_ + 1) == H(i_, r_) + ind(grp(r_) < i_)), arity=2)
+        i0 = z3.Int("i0")
+        ctx.skolem(z3.And(0 <= i0, i0 < K))
+        ctx.prove("lemmaB.base0: H(0, 0) == 0", H(0, 0) == 0, pool=[z3.IntVal(0)], live=[i0])
+        ctx.prove("lemmaB.base: H(i, 0) == 0 => H(i+1, 0) == 0", z3.Implies(H(i0, 0) == 0, H(i0 + 1, 0) == 0), pool=[i0, i0 + 1, z3.IntVal(0), uniq(i0)])
+        ctx.assume_forall("H(i, 0) == 0 (by induction on i)", lambda i_: z3.Implies(z3.And(0 <= i_, i_ <= K), H(i_, 0) == 0))
+        i2, k2, r2 = z3.Int("i2"), z3.Int("k2"), z3.Int("r2")
+        lo = lambda i_: z3.If(i_ == 0, z3.IntVal(0), uniq(i_ - 1))
+        ctx.skolem(z3.And(0 <= i2, i2 < K, lo(i2) <= k2, k2 < uniq(i2), 0 <= r2, r2 < n))
+        g2 = grp(r2)
+        ctx.prove("lemmaB.step: over the rows from r to r+1", z3.Implies(H(i2, r2) + gt(k2, r2) == r2, H(i2, r2 + 1) + gt(k2, r2 + 1) == r2 + 1),
+                  pool=[i2, i2 - 1, k2, r2, r2 + 1, g2])
+        ctx.assume_forall("lemmaB (by induction on r)", lambda i_, k_, r_: z3.Implies(z3.And(0 <= i_, i_ < K, lo(i_) <= k_, k_ < uniq(i_), 0 <= r_, r_ <= n),
+                          H(i_, r_) + gt(k_, r_) == r_), arity=3)
+        i3 = z3.Int("i3")
+        ctx.skolem(z3.And(0 <= i3, i3 < K))
+        ctx.prove("lemmaC.base: cumsum before the first count", ps(0) == H(0, n), pool=[z3.IntVal(0), n], live=[i3])
+        ctx.prove("lemmaC.step: one more distinct length", z3.Implies(ps(i3) == H(i3, n), ps(i3 + 1) == H(i3 + 1, n)), pool=[i3, i3 + 1, n])
+        ctx.assume_forall("lemmaC (by induction on i)", lambda i_: z3.Implies(z3.And(0 <= i_, i_ <= K), ps(i_) == H(i_, n)))
+        i4, k4 = z3.Int("i4"), z3.Int("k4")
+        ctx.skolem(z3.And(0 <= i4, i4 < K))
+        ctx.prove("post.run boundaries: 0, then the distinct row lengths", z3.And(E.get(z3.IntVal(0)) == 0, E.get(i4 + 1) == uniq(i4)), pool=[i4, i4 + 1, z3.IntVal(0)])
+        ctx.skolem(z3.And(E.get(i4) <= k4, k4 < E.get(i4 + 1)))
+        ctx.prove("post.value at column k == number of rows longer than k", V.get(i4) == gt(k4, n), pool=[i4, i4 + 1, i4 - 1, k4, n])
+        ctx.prove("post.operands not modified", z3.BoolVal(st["inds"].writes == 0 and st["vals"].writes == 0))
+
+    def concrete(self, case):
+        from npstructures import RaggedArray
+        from npstructures.runlengtharray import RunLengthRaggedArray
+        rows = case["rows"]
+        rr = RunLengthRaggedArray.from_ragged_array(RaggedArray(rows))
+        try:
+            got = np.asarray(rr.col_counts().to_array()).tolist()
+        except Exception as e:
+            return {"msg": f"RunLengthRaggedArray.col_counts for rows {rows} raised {type(e).__name__}: {e}", "sig": "raised:rlragged-colcounts"}
+        exp = [sum(1 for r in rows if len(r) > k) for k in range(max(len(r) for r in rows))]
+        if got != exp:
+            return {"msg": f"RunLengthRaggedArray.col_counts for rows {rows}: {got}, expected {exp}", "sig": "wrong:rlragged-colcounts"}
+
+    def concretise(self, kind, model, ghost):
+        return {"rows": [[1, 1, 2], [2], [3, 3, 4, 4], [5]]}
+
+    bounded_cases = RlRaggedRavel.bounded_cases
+
+
 def _stub_ragged_remove_empty(calls):
     """RunLengthRaggedArray.remove_empty_intervals by its proved contract: fresh ragged results (SpecRagged) with the contract formulas as hypotheses,
     after the call-site obligation that boundaries have one column more than values"""
